@@ -229,6 +229,23 @@ def run(ctx, replay=None):
             ctx.fail("matrix_norm", "UnknownOrdRejected", "ord=%r" % (bad,), {"ord": repr(bad), "returned": float(v)})
         except Exception:
             pass
+    # call history with the SAME data in different shapes (same bytes, different matrix): a result may not be remembered
+    # under a key that ignores the shape; also equal shapes with different values, back to back in one process
+    rngh = np.random.default_rng(ctx.seed + 77)
+    for rep in range(6 if thorough else 2):
+        base = rngh.integers(-4, 5, (12, 4)).astype(float)
+        for shp in ((1, 12), (2, 6), (3, 4), (4, 3), (6, 2), (12, 1), (3, 4)):
+            Fh = base.reshape(shp + (4,))
+            if shp == (3, 4) and rep % 2:
+                Fh = Fh[::-1].copy()                      # same shape, other values
+            mod = np.sqrt(np.sum(Fh * Fh, axis=-1))
+            want = {"1": float(np.max(np.sum(mod, axis=0))), "inf": float(np.max(np.sum(mod, axis=1))), "2": float(osvals(Fh)[0]), "fro": ofro(Fh)}
+            for fam, d in (("1", n1(Fh)), ("inf", ninf(Fh)), ("2", n2(Fh)), ("fro", all_fro(Fh))):
+                for name, v in d.items():
+                    ctx.replays += 1
+                    if abs(float(v) - want[fam]) > 1e-9 * max(want[fam], 1.0):
+                        ctx.fail(name, {"1": "OneNormIsMaxColumnSum", "inf": "InfNormIsMaxRowSum", "2": "TwoNormIsLargestSingularValue", "fro": "FroIsRootSumSquares"}[fam],
+                                 "same-data-other-shape", {"shape": list(shp), "data": base.tolist(), "got": float(v), "expected": want[fam]})
     # legacy options of the Krylov norms ('d', '2', '1', numpy orders): outside the four norms of the property, so
     # only mechanism-level consistency is recorded (DRIFT): dense and scipy-sparse planes give the same value, the
     # quaternion form forwards to the component form, and an unknown option is rejected in both storages
